@@ -186,6 +186,30 @@ def table_ops(rng, nrandom):
 
 # ---------------------------------------------------------------- parser streams (C07-C12, C14)
 
+def value_variants(codes, val):
+    """near-miss values for a metric with the given code list: every concatenation of two of its codes (either order,
+    incl. doubling), the concatenation of all of them in the table's and in reverse order, proper prefixes and suffixes
+    of multi-letter codes, a code with one letter appended or prepended, mixed case"""
+    out = []
+    for a in codes:
+        for b in codes:
+            out.append(a + b)
+    out.append("".join(codes))
+    out.append("".join(reversed(codes)))
+    for c in codes:
+        for k in range(1, len(c)):
+            out.append(c[:k])
+            out.append(c[k:])
+        out += [c + "X", "X" + c, c + c[-1], c.lower(), c.capitalize(), c + "\x00", c + " ", c + "/"]
+    seen = set()
+    res = []
+    for v in out:
+        if v not in seen and v not in codes:
+            seen.add(v)
+            res.append(v)
+    return res
+
+
 def seeds_v3(rng, n):
     """(level, version, tokens) seed vectors: all three levels, both versions, random omissions;
     every third round of seeds spells out every metric of the level (longest vectors)"""
@@ -233,6 +257,9 @@ def edits_v3(ver, t, rng, heavy):
             yield mk(pre, t[:i] + [name + ":" + c] + t[i + 1:])
         yield mk(pre, t[:i] + [name + ":" + val.lower()] + t[i + 1:])
         yield mk(pre, t[:i] + [name.lower() + ":" + val] + t[i + 1:])
+        codes3 = [m[2] for m in vec.V3 if m[0] == name]
+        for vv in (value_variants(codes3[0], val) if codes3 else []):  # near-miss values built from the metric's own codes
+            yield mk(pre, t[:i] + [name + ":" + vv] + t[i + 1:])
         for nm in vec.ALL_NAMES:                                       # every name of any level/version
             yield mk(pre, t[:i] + [nm + ":" + val] + t[i + 1:])
         yield mk(pre, t[:i] + [name + val] + t[i + 1:])                # colon removed
@@ -331,6 +358,12 @@ def seeds_v2(rng, n):
         b = vec.toks(vec.V2B, vec.rand_vals(rng, vec.V2B))
         t = vec.toks(vec.V2T, vec.rand_vals(rng, vec.V2T)) if pat in (1, 3) else []
         e = vec.toks(vec.V2E, vec.rand_vals(rng, vec.V2E)) if pat in (2, 3) else []
+        if (i // 4) % 3 == 1:
+            # groups in which everything is Not Defined (and their single-token edits: partial all-ND groups, one defined value)
+            t = [x.split(":")[0] + ":ND" for x in t]
+            e = [x.split(":")[0] + ":ND" for x in e]
+        elif (i // 4) % 3 == 2:
+            b = vec.toks(vec.V2B, ["L", "H", "M", "N", "N", "N"])       # lowest exploitability, no impact
         out.append((b, t, e))
     return out
 
@@ -351,6 +384,9 @@ def edits_v2(b, t, e, rng, heavy):
         yield mk(full[:i] + [name + ":" + val.lower()] + full[i + 1:])
         yield mk(full[:i] + [name.lower() + ":" + val] + full[i + 1:])
         yield mk(full[:i] + [name.upper() + ":" + val] + full[i + 1:])
+        codes2 = [m[2] for m in vec.V2 if m[0] == name]
+        for vv in (value_variants(codes2[0], val) if codes2 else []):
+            yield mk(full[:i] + [name + ":" + vv] + full[i + 1:])
         for nm in vec.ALL_NAMES:
             yield mk(full[:i] + [nm + ":" + val] + full[i + 1:])
         yield mk(full[:i] + [name + val] + full[i + 1:])
@@ -485,4 +521,28 @@ def x_vs_omitted3(rng, n):
         ops.append(_op("D3", L, vec.v3vec(ver, full)))
         part = b + ["%s:%s" % o for o in opt if not (o[1] == "X" and rng.chance(1, 2))]
         ops.append(_op("D3", L, vec.v3vec(ver, rng.shuffle(part))))
+    return ops
+
+
+def reuse_ops(rng, n):
+    """RD3 / RD2: Decode(first) then Decode(second) on one constructor result.  first: strings rejected before anything is
+    recorded (empty, bad prefix, other version), strings rejected half-way (a state is left behind), accepted vectors with
+    and without optional metrics; second: accepted-looking vectors that share or do not share optional metrics with first"""
+    ops = []
+    for _ in range(n):
+        L = rng.below(3)
+        if rng.chance(1, 2):
+            v2nd = vec.rand_v3(rng, L)
+            base_only = vec.rand_v3(rng, 0)
+            k = rng.below(8)
+            first = ["", "CVSS:2.0/AV:N", "CVSS:3.1", "garbage", vec.rand_v3(rng, L), vec.rand_v3(rng, L, omit=False),
+                     vec.rand_v3(rng, L)[:30], "CVSS:3.1/E:U/RL:O/RC:U/MS:C/CR:H"][k]
+            second = base_only if rng.chance(1, 3) else v2nd
+            ops.append("RD3 %s %s %s" % (LV[L], hx(first), hx(second)))
+        else:
+            v2nd = vec.rand_v2(rng, L)
+            k = rng.below(7)
+            first = ["", "CVSS:2.0/AV:N", "AV:N", vec.rand_v2(rng, L), vec.rand_v2(rng, 2), vec.rand_v2(rng, L)[:20], "E:F/RL:OF/RC:C"][k]
+            second = vec.rand_v2(rng, 0) if rng.chance(1, 3) else v2nd
+            ops.append("RD2 %s %s %s" % (LV[L], hx(first), hx(second)))
     return ops
